@@ -87,8 +87,13 @@ class Injector:
         self.history = []          # (phase, x, value-norm | fault kind)
         self.fired = []
         self.n_out = n_out
+        self.armed = True          # False: a pre-history solve of the same problem -- plain pass-through, nothing counted or faulted
 
     def residual(self, x):
+        if not self.armed:
+            if not np.all(np.isfinite(np.asarray(x, float))):
+                return np.full(self.n_out, np.nan)
+            return np.asarray(self.R(x), float)
         ph = self.phase
         k = self.count[ph]
         self.count[ph] += 1
@@ -112,6 +117,10 @@ class Injector:
         return v
 
     def jacobian(self, x):
+        if not self.armed:
+            if not np.all(np.isfinite(np.asarray(x, float))):
+                raise FloatingPointError("non-finite argument to the Jacobian (fail-stop)")
+            return np.asarray(self.J(x), float)
         k = self.count["jac"]
         self.count["jac"] += 1
         kind = self.faults.get(("jac", k))
@@ -305,9 +314,27 @@ def execute_solver(ctx: RunCtx) -> None:
         except Exception:
             ctx.probe("prior_run_raised")
         cfg["prior_run"] = {"max_delta": pm, "inf_norm": pinf, "tol": ptol, "n": pn}
+    # ... or the very same problem (the same residual / Jacobian / norm callables, as a caller retrying with another step cap,
+    # tolerance or starting point passes them) was solved on this backend just before; that solve is fault-free and not judged
+    norm_arg = norm if cfg["inf_norm"] else None
+    res_fn, jac_fn = inj.residual, (inj.jacobian if cfg["analytic_jac"] else None)   # one object each: both solves pass the identical callables
+    if ds.flag("prior_run_same_callables", 0.25):
+        sm = ds.pick([5.0, None, 1e-3, 0.3, 1e-2], "prior_same.max_delta")
+        stol = 10.0 ** (-ds.pick([6, 12, 3], "prior_same.tol.exp"))
+        sx0 = mp["root"] + np.array([ds.pick([0.5, -2.0, 1e-3], f"prior_same.x0[{i}]") for i in range(n)])
+        inj.armed = False
+        try:
+            be.run(request=_CI(initial_guess=sx0, residual_fn=res_fn, jacobian_fn=jac_fn,
+                               norm_fn=norm_arg, max_attempts=ds.pick([25, 2], "prior_same.max_attempts"), tol=stol, max_delta=sm, fd_step=1e-8))
+            ctx.probe("prior_same_callables_converged")
+        except Exception:
+            ctx.probe("prior_same_callables_raised")
+        finally:
+            inj.armed = True
+        cfg["prior_same"] = {"max_delta": sm, "tol": stol}
     iterates = instrument(be, inj, cfg["max_attempts"])
-    req = _CI(initial_guess=x0.copy(), residual_fn=inj.residual, jacobian_fn=(inj.jacobian if cfg["analytic_jac"] else None),
-              norm_fn=(norm if cfg["inf_norm"] else None), max_attempts=cfg["max_attempts"], tol=cfg["tol"], max_delta=cfg["max_delta"], fd_step=1e-8)
+    req = _CI(initial_guess=x0.copy(), residual_fn=res_fn, jacobian_fn=jac_fn,
+              norm_fn=norm_arg, max_attempts=cfg["max_attempts"], tol=cfg["tol"], max_delta=cfg["max_delta"], fd_step=1e-8)
     log.add("cfg", {k: (fhex(v) if isinstance(v, float) else v) for k, v in cfg.items()}, [fhex(v) for v in x0], sorted((k, v) for k, v in faults.items()))
     outcome = {}
     try:
